@@ -61,13 +61,13 @@ fn space_for(tier: Tier) -> (Space, usize) {
     let n = spansets(SPANSET_INPUT.len()).len() as u64;
     match tier {
         Tier::Quick => {
-            s.ast("K", 5, 64).ast("CL", 3, 64).ast("U", 3, 64).ast("GCM", 4, 64).ast("GCE", 3, 64).ast("CAPQ", 4, 64).ast("ALTC", 5, 64).ast("AN", 3, 64).ast("NESTN", 4, 64).ast("CAPR", 4, 64).ast("OPTG", 5, 64).ast("CI", 2, 64);
+            s.ast("K", 5, 64).ast("CL", 3, 64).ast("U", 3, 64).ast("GCM", 5, 64).ast("GCE", 3, 64).ast("CAPQ", 5, 64).ast("ALTC", 5, 64).ast("AN", 3, 64).ast("NESTN", 4, 64).ast("CAPR", 4, 64).ast("OPTG", 5, 64).ast("CI", 2, 64);
             s.ast_range("ANL", 1, 3, 32, 6);
             s.ast_range("LP", 1, 3, 32, 5);
             s.list("spansets", n, 64);
             s.list("literals under q", 8 + 64 + 512, 16);
             s.list("case families under i", 7, 1);
-            (s, 3)
+            (s, 4)
         }
         Tier::Thorough => {
             s.ast("K", 5, 64).ast("CL", 4, 64).ast("U", 4, 64).ast("GC", 5, 64).ast("GCM", 5, 64).ast("GCE", 4, 64).ast("CAPQ", 5, 64).ast("ALTC", 6, 64).ast("AN", 4, 64).ast("NESTN", 5, 64).ast("CAPR", 4, 64).ast("OPTG", 5, 64).ast("CI", 3, 64);
